@@ -741,6 +741,9 @@ Definition parse_jws_full (hdr_dec : bytes -> option header) (o : jobj) : res (b
   | None => Err e_missing
   | Some p =>
       let* payload := decode_member (Some p) in
+      (* every *byteBuffer member is base64url-decoded by json.Unmarshal, used or not *)
+      let* _ := decode_member (jstr o n_protected) in
+      let* _ := decode_member (jstr o n_signature) in
       match jarr o n_signatures with
       | [] => let* s := parse_sig hdr_dec (jstr o n_protected) (jhdr o n_header) (jstr o n_signature) in
               Ok (payload, [s])
@@ -811,6 +814,8 @@ Definition recip_ok (ph unprot : option header) (r : jrecip) : bool :=
 
 (* rawJsonWebEncryption.sanitized *)
 Definition parse_jwe_full (hdr_dec : bytes -> option header) (o : jobj) : res pjwe :=
+  (* every *byteBuffer member is base64url-decoded by json.Unmarshal, used or not *)
+  let* _ := decode_member (jstr o n_encrypted_key) in
   if has_nonce (jhdr o n_unprotected) || has_nonce (jhdr o n_header) then Err e_nonce else
   let* pb := decode_member (jstr o n_protected) in
   let* ph := (if is_nil pb then Ok None
